@@ -6,6 +6,7 @@
 #define GEMMI_UNITCELL_HPP_
 
 #include <cassert>
+#include <algorithm>  // for min, max
 #include <cmath>      // for cos, sin, sqrt, floor, NAN
 #include <vector>
 #include "math.hpp"
@@ -449,7 +450,8 @@ struct UnitCell : UnitCellParameters {
     int neg_shift[3] = {0, 0, 0};
     if (is_crystal()) {
       for (int j = 0; j < 3; ++j)
-        neg_shift[j] = iround(diff.at(j));
+        // the shift is kept in an int: absurd coordinates (corrupted files) must not overflow it
+        neg_shift[j] = (int) std::max(-2e9, std::min(2e9, std::round(diff.at(j))));
       diff.x -= neg_shift[0];
       diff.y -= neg_shift[1];
       diff.z -= neg_shift[2];
